@@ -57,7 +57,7 @@ def _generate(ctx):
     if not behs:
         raise HarnessError("generator produced no behaviours:\n" + r.out[-2000:])
     total = len(behs)
-    mx = 200 if ctx.quick else 30000
+    mx = 200 if ctx.quick else 16000
     rnd = random.Random(ctx.seed)
     if len(behs) > mx:
         behs = rnd.sample(behs, mx)
@@ -136,7 +136,7 @@ def run(ctx):
         n_random = 0
     else:
         groups = _generate(ctx)
-        n_random = 50 if ctx.quick else 1000
+        n_random = 50 if ctx.quick else 600
     beh_path = os.path.join(ctx.work, "behaviours.json")
     json.dump(groups, open(beh_path, "w"))
     trace_path = os.path.join(ctx.work, "trace.ndjson")
@@ -193,8 +193,8 @@ def run(ctx):
     ctx.notes["trace_validation"] = {"traces": len(traces), "events": events, "cases": cases, "distinct_cases": len(seen),
                                      "connections_compared": conns, "nontrivial_cases": nontrivial,
                                      "tlc_wall_s": round(tlc_wall, 1), "rejected": stats_rej}
-    ctx.notes["exhaustive_note"] = ("thorough tier replays the complete TLC enumeration of the tiny vocabulary "
-                                    "(31764 policies); the random leg is a sample")
+    ctx.notes["exhaustive_note"] = ("the small scope is enumerated completely by TLC (3924 / 31764 policies) and replayed "
+                                    "thinned by seed (200 quick / 16000 thorough); the random leg is a sample")
     if len(traces) > 1:
         t_id, lines = traces[-1]
         ev = json.loads(lines[1]) if len(lines) > 1 else {}
